@@ -3,6 +3,18 @@ from vlib import core
 from props import pm_common as pm
 
 LEVEL = "proof"
+MANIFEST = dict(
+    cat="proof", tech="Coq-verified checkers (canonical pairing uniqueness) applied to the implementation's exposed state after every operation",
+    text="Coq theorems, for every prime p and every size: the pivot pairing of a boundary matrix is unique over all reduced matrices reachable "
+         "by upper-triangular column operations (C05_pairing_unique), and the executable checker check_any only accepts such decompositions "
+         "(C05_check_RU_sound), so every accepted state exposes the certified canonical barcode (C05_certified_lows_canonical). The C++ is tied "
+         "by running, for a grid of Matrix<Options> instantiations (9 column types x boundary/RU/chain x 3 indexings x row access x removable x "
+         "Z2/Zp), random filtered cell complexes (simplicial, cubical, CW with torsion) through insert_boundary/remove_last histories and "
+         "validating R, U / the chain basis, pivots, dimensions and the barcode with the extracted checkers after every step.",
+    note="Trusted: Coq kernel, extraction + OCaml driver, harness/pm_drv.cpp, g++. The matrix algorithms themselves are not modelled: the theorems "
+         "quantify over all matrices, the runs show the implementation's states satisfy their hypotheses on the generated histories. "
+         "Un-formalised mathematics: pivot pairing = interval decomposition.",
+    ref="DESIGN.md section 4 C05")
 CORRESPONDENCE = "verified checkers of coq/ReduceExec.v (extracted, ocaml/pm_oracle.ml) applied to what harness/pm_drv.cpp reads from Matrix<Options>"
 TRUSTED = [
     "Coq 8.16.1 kernel (coqc, full .vo build); vm_compute only in Examples",
